@@ -98,7 +98,13 @@ func Harness_C17_TableSmall() {
 	verif.Assert(err == nil, "write-succeeds")
 	if n > 0 {
 		verif.Assert(bytes.Equal(t.startKey, es[0].key) && bytes.Equal(t.endKey, es[n-1].key), "range-is-first-and-last-key")
-		verif.Assert(t.startSeqNum == es[0].seqNum && t.endSeqNum == es[n-1].seqNum, "seq-bounds")
+		lo, hi := false, false
+		for _, e := range es {
+			verif.Assert(t.startSeqNum <= e.seqNum && e.seqNum <= t.endSeqNum, "seq-bounds-cover-every-entry")
+			lo = verif.Or(lo, t.startSeqNum == e.seqNum)
+			hi = verif.Or(hi, t.endSeqNum == e.seqNum)
+		}
+		verif.Assert(verif.And(lo, hi), "seq-bounds-are-attained")
 		for _, e := range es {
 			verif.Assert(t.filter.MightHave(e.key), "bloom-never-denies-present-key")
 		}
